@@ -45,8 +45,8 @@ theorem answerErrs_eq : Nsq.Gen.Chan.answerErrs = ([
   ("TOUCH", "NewFatalClientErr", "E_INVALID"),
   ("TOUCH", "NewClientErr", "E_TOUCH_FAILED")] : List (String × String × String)) := by decide
 
-/-- C03 `resume`: every path that can turn the guard true wakes the pump: SetReadyCount (RDY raise), FinishedMessage / RequeuedMessage / TimedOutMessage / Empty (in-flight count drops), Pause / UnPause. -/
-theorem readyStateCallers_eq : Nsq.Gen.Chan.readyStateCallers = (["clientV2.Empty", "clientV2.FinishedMessage", "clientV2.Pause", "clientV2.RequeuedMessage", "clientV2.SetReadyCount", "clientV2.TimedOutMessage", "clientV2.UnPause"] : List String) := by decide
+/-- C03 `resume`: every path that can turn the guard true wakes the pump: SetReadyCount (RDY raise), FinishedMessage / RequeuedMessage / TimedOutMessage / Discarded / Empty (in-flight count drops), Pause / UnPause. -/
+theorem readyStateCallers_eq : Nsq.Gen.Chan.readyStateCallers = (["clientV2.Discarded", "clientV2.Empty", "clientV2.FinishedMessage", "clientV2.Pause", "clientV2.RequeuedMessage", "clientV2.SetReadyCount", "clientV2.TimedOutMessage", "clientV2.UnPause"] : List String) := by decide
 
 /-- C03: the ready count is written only by RDY and by StartClose (CLS). -/
 theorem setReadyCallers_eq : Nsq.Gen.Chan.setReadyCallers = (["clientV2.StartClose", "protocolV2.RDY"] : List String) := by decide
@@ -66,12 +66,12 @@ theorem isReady_eq : Nsq.Gen.Chan.isReady = ([
 theorem pumpGuard_eq : Nsq.Gen.Chan.pumpGuard = ([
   "if subChannel == nil || !client.IsReadyForMessages()"] : List String) := by decide
 
-/-- C02/C03: order of effects of one delivery: sampling test, `Attempts++`, StartInFlightTimeout, SendingMessage, SendMessage (model `Op.deliver` / `Op.sampleDrop`). -/
+/-- C02/C03: order of effects of one delivery: sampling test, `Attempts++`, SendingMessage (count first — fix F13: `Channel.Empty` subtracts what it finds registered, so the count never lags behind the in-flight map), StartInFlightTimeout (register), SendMessage (model `Op.deliver` / `Op.sampleDrop`). -/
 theorem pumpDeliver_eq : Nsq.Gen.Chan.pumpDeliver = ([
   "if sampleRate > 0 && rand.Int31n(100) > sampleRate",
   "do msg.Attempts++",
-  "do subChannel.StartInFlightTimeout(msg, client.ID, msgTimeout)",
   "do client.SendingMessage()",
+  "do subChannel.StartInFlightTimeout(msg, client.ID, msgTimeout)",
   "assign err = p.SendMessage(client, msg)"] : List String) := by decide
 
 /-- C13/F8: FIN = Channel.FinishMessage, then client.FinishedMessage (two critical sections: model `finChan` / `finClient`). -/
@@ -138,11 +138,27 @@ theorem chanPutDeferred_eq : Nsq.Gen.Chan.chanPutDeferred = ([
   "do atomic.AddUint64(&c.messageCount, 1)",
   "do c.StartDeferredTimeout(msg, timeout)"] : List String) := by decide
 
-/-- C13/F8: Empty = initPQ, client.Empty for every client, drain, backend.Empty. -/
+/-- C13 (fix F13, formerly F8): Empty = `dropped := initPQ()`, for every client `Discarded(dropped[id])` (a consumer type without it: `Empty()`), drain, backend.Empty (model `Op.empty`: each client's counter minus the in-flight messages it owned). -/
 theorem chanEmpty_eq : Nsq.Gen.Chan.chanEmpty = ([
-  "do c.initPQ()",
+  "assign dropped := c.initPQ()",
+  "assign d, ok := client.(interface{ Discarded(int64) })",
+  "do d.Discarded(dropped[id])",
   "do client.Empty()",
   "stmt return c.backend.Empty()"] : List String) := by decide
+
+/-- C13 (F13): `initPQ` counts, under `inFlightMutex` and before it replaces the map, the in-flight messages per owning client, and returns that. -/
+theorem initPQDropped_eq : Nsq.Gen.Chan.initPQDropped = ([
+  "do c.inFlightMutex.Lock()",
+  "assign dropped := make(map[int64]int64)",
+  "do dropped[msg.clientID]++",
+  "assign c.inFlightMessages = make(map[MessageID]*Message)",
+  "do c.inFlightMutex.Unlock()",
+  "stmt return dropped"] : List String) := by decide
+
+/-- C13 (F13): `clientV2.Discarded(n)` subtracts n from the in-flight count and wakes the pump. -/
+theorem clientDiscarded_eq : Nsq.Gen.Chan.clientDiscarded = ([
+  "do atomic.AddInt64(&c.InFlightCount, -n)",
+  "do c.tryUpdateReadyState()"] : List String) := by decide
 
 /-- C01.1/C13.2: Topic.PutMessage counts message and bytes only after a successful put. -/
 theorem topicPut_eq : Nsq.Gen.Chan.topicPut = ([
